@@ -231,7 +231,11 @@ pub fn c07(tier: &str, seed: u64) -> Vec<Case> {
     let mut v = vec![];
     let mut all = packets(tier, seed ^ 0x77, true);
     all.extend(boundary_packets(tier));
-    if !thorough { all.truncate(1800 + 8); all.extend(boundary_packets(tier)); }
+    if !thorough {
+        // the quick tier keeps the first 1800 small packets and every large one
+        let mut k = 0;
+        all.retain(|(_, tag)| { k += 1; k <= 1800 || tag == "big" || tag == "many-names" || tag == "boundary-16383" });
+    }
     for (p, tag) in all {
         let comp = match p.build_bytes_vec_compressed() { Ok(b) => b, Err(_) => continue };
         let plain = match p.build_bytes_vec() { Ok(b) => b, Err(_) => continue };
